@@ -235,6 +235,9 @@ class Check:
         shutil.rmtree(self.dir, ignore_errors=True)
         os.makedirs(self.dir, exist_ok=True)
         self.known = load_known(prop)
+        import glob as _glob
+        for old in _glob.glob(os.path.join(VERIF, "replays", f"{prop}-*.json")):
+            os.remove(old)
         self.broken_obligations: List[Dict[str, str]] = []
         self.replay_file: Optional[str] = None
         self.model_ok = True
